@@ -3,7 +3,7 @@ from vlib import oracles, reharness
 from vlib.harness import Harness, register
 from harnesses.c01_documents import OUT, STUBS, SYM, _fns
 
-PLANS_Q = ["scan2", "bare", "cleanup", "flymon"]
+PLANS_Q = ["scan2", "bare", "cleanup", "flymon", "failpause", "defer_failpause"]
 PLANS_T = PLANS_Q + ["count2", "staged_monitor", "nested_runs", "grid2x2", "fly1"]
 
 register(Harness("c07_one", "C07", lambda P: reharness.make_sweep(P, oracles.c07_lifecycle, plans=PLANS_Q if P["tier"] == "quick" else PLANS_T),
